@@ -17,7 +17,7 @@ N == Len(Tr)
 VARIABLES l, sc, s, cnt
 Tags(conds) == { c[2] : c \in { x \in conds : x[1] } }
 S0 == [added |-> {}, done |-> {}, closed |-> {}, inh |-> {}, lclosed |-> FALSE, cancelled |-> FALSE, opclosed |-> FALSE, ret |-> FALSE,
-       now |-> 0, dl0 |-> << >>, fresh |-> {}, bad |-> {}, blocked |-> FALSE, post |-> 0]
+       now |-> 0, dl0 |-> << >>, fresh |-> {}, bad |-> {}, blocked |-> FALSE, post |-> 0, hpost |-> << >>]
 Get(f, k, d) == IF k \in DOMAIN f THEN f[k] ELSE d
 Put(f, k, v) == [x \in DOMAIN f \cup {k} |-> IF x = k THEN v ELSE f[x]]
 
@@ -31,7 +31,11 @@ Step(e) ==
                                     !.bad = @ \cup Tags({ << s.ret, "C17" >> })]            \* a goroutine finishing after Serve returned
      [] e.e = "cl"     -> [s EXCEPT !.closed = @ \cup {e.c}]
      [] e.e = "hstart" -> [s EXCEPT !.inh = @ \cup {e.c}, !.fresh = @ \cup {e.c},
-                                    !.bad = @ \cup Tags({ << s.ret, "C17" >> })]            \* a handler starting after Serve returned
+                                    !.hpost = IF s.cancelled THEN Put(@, e.c, Get(@, e.c, 0) + 1) ELSE @,
+                                    \* Lifecycle!PollsContextBetweenReads: the read that was blocked when the cancellation came may still
+                                    \* deliver one request; a second handler on the same connection means the loop goes on serving
+                                    !.bad = @ \cup Tags({ << s.ret, "C17" >>,                \* a handler starting after Serve returned
+                                                          << s.cancelled /\ Get(s.hpost, e.c, 0) >= 1, "C17" >> })]
      [] e.e = "hend"   -> [s EXCEPT !.inh = @ \ {e.c}]
      [] e.e = "lclose" -> [s EXCEPT !.lclosed = TRUE]
      [] e.e = "env"    -> [s EXCEPT !.cancelled = @ \/ e.op = "cancel", !.opclosed = @ \/ e.op = "lclose", !.now = IF e.op = "tick" THEN e.now + e.c ELSE @]
